@@ -5,6 +5,7 @@ mod expr;
 mod prim;
 mod rec;
 mod run;
+mod scen;
 mod ser;
 
 use std::env;
@@ -36,6 +37,13 @@ fn main() {
         "prim" | "cut" => {
             if let Err(e) = prim::run_file(&args[1], &args[2], &args[3]) {
                 eprintln!("{} failed: {}", args[1], e);
+                std::process::exit(2);
+            }
+        }
+        "scen" => {
+            let threads = args.get(4).and_then(|s| s.parse().ok()).unwrap_or(4usize);
+            if let Err(e) = scen::run_file(&args[2], &args[3], threads) {
+                eprintln!("scen failed: {}", e);
                 std::process::exit(2);
             }
         }
